@@ -28,7 +28,7 @@ def pipeline_graph(g: List[List[int]]) -> Dict[str, Any]:
     from numba_scfg.core.datastructures.ast_transforms import SCFG2ASTTransformer
     from numba_scfg.core.datastructures.basic_block import SyntheticAssignment
 
-    from .srcpipe import SkeletonError, skeleton_of
+    from .srcpipe import MalformedOutput, SkeletonError, skeleton_of
 
     out: Dict[str, Any] = {"outcome": "ok", "stage": "", "exc": "", "census": {}, "flat": {}, "skeleton": [], "skexc": "", "H": {}, "root": ""}
     try:
@@ -76,6 +76,10 @@ def pipeline_graph(g: List[List[int]]) -> Dict[str, Any]:
             out["skeleton"] = skeleton_of(fdef, ids)
         except SkeletonError as e:
             out["skexc"] = str(e)
+        except MalformedOutput:
+            out["outcome"] = "internal"
+            out["exc"] = "MalformedAST@SCFG2AST"
+            return out
         out["stage"] = "compile"
         text = ast.unparse(ast.fix_missing_locations(ast.Module(body=[fdef], type_ignores=[])))
         compile(text, "<regenerated>", "exec")
